@@ -52,29 +52,50 @@ Proof. vm_compute. reflexivity. Qed.
 Lemma stats_seeks_ok : seeks_ok cs (prog_of cs C_stats M_read) = true.
 Proof. vm_compute. reflexivity. Qed.
 
-(* for EVERY file content, every allocation cap and whatever zlib answers: neither stage of the read session runs out of
-   fuel — the sequential model of File::open(in) ... read() until nullptr always ends *)
-Theorem read_session_terminates : forall (inflate : list Z -> Z -> option (list Z)) cap (bytes : list Z),
-  r_cend (f_read_session inflate cap bytes) <> EndFuel /\ r_oend (f_read_session inflate cap bytes) <> EndFuel.
+Lemma scan_stops_on_failed_stream : sp_stop_on_fail scan_p = true.
+Proof. vm_compute. reflexivity. Qed.
+
+(* for EVERY file content, every allocation cap, whatever zlib answers and wherever a concurrent File::close() closes the
+   compressed file (s_open i0 arbitrary): neither stage of the read session runs out of fuel *)
+Lemma read_session_on_terminates : forall (inflate : list Z -> Z -> option (list Z)) cap (i0 : istream) (n : nat),
+  sstream i0 -> s_pos i0 = 0 -> s_size i0 = Z.of_nat n ->
+  let r := read_session_on cs scan_p cap factory_table C_stats C_lc C_ohb fid_objectSize fid_objectType
+             (fid_of "LogContainer" "compressionMethod") (fid_of "LogContainer" "uncompressedFileSize") (fid_of "LogContainer" "compressedFile")
+             (fid_of "FileStatistics" "statisticsSize") inflate i0 n in
+  r_cend r <> EndFuel /\ r_oend r <> EndFuel.
 Proof.
-  intros inflate cap bytes. unfold f_read_session, read_session.
-  destruct (dec cs scan_p cap C_stats (fresh cs C_stats) (mk_fstream bytes)) as [[st i1]|e] eqn:E0; [|cbn; split; discriminate].
+  intros inflate cap i0 n Hst Hp0 Hsz. unfold read_session_on.
+  destruct (dec cs scan_p cap C_stats (fresh cs C_stats) i0) as [[st i1]|e] eqn:E0; [|cbn; split; discriminate].
   unfold dec in E0.
-  destruct (st_run_mono cs (callf cs C_stats) scan_p cap scan_rules_back_at_most_3 _ _ _ _ _ _ stats_seeks_ok (eq_refl : s_sticky (mk_fstream bytes) = true) E0) as (T1 & Z1 & G1).
+  destruct (st_run_mono cs (callf cs C_stats) scan_p cap scan_rules_back_at_most_3 _ _ _ _ _ _ stats_seeks_ok Hst E0) as (T1 & Z1 & G1).
   match goal with |- context [cont_loop ?a ?b ?c ?d ?e ?f ?g ?h ?k ?infl ?fuel ?i ?acc ?u] =>
-    pose proof (fun H => cont_loop_never_out_of_fuel a b c d e f g h k infl scan_rules_back_at_most_3 ohb_prefix_ohb ohb_prefix_lc fuel i acc u T1 H) as HC;
-    pose proof (cont_loop_failed_start a b c d e f g h k infl scan_rules_back_at_most_3 ohb_prefix_ohb (S (length bytes / 16)) i acc u T1) as HB;
+    pose proof (fun H => cont_loop_never_out_of_fuel a b c d e f g h k infl scan_rules_back_at_most_3 scan_stops_on_failed_stream ohb_prefix_ohb ohb_prefix_lc fuel i acc u T1 H) as HC;
+    pose proof (cont_loop_failed_start a b c d e f g h k infl scan_rules_back_at_most_3 scan_stops_on_failed_stream ohb_prefix_ohb (S (n / 16)) i acc u T1) as HB;
     destruct (cont_loop a b c d e f g h k infl fuel i acc u) as [[conts usize] cend] eqn:EC
   end.
   pose proof (parser_terminates cap (concat conts)) as HP.
   destruct (obj_loop cs scan_p cap factory_table C_ohb fid_objectSize fid_objectType (2 * length (concat conts) + 16) (mk_ustream (concat conts)) [] 0) as [[objs count] oend] eqn:EO.
   cbn [r_cend r_oend snd] in *. split; [|exact HP].
   destruct (s_good i1) eqn:Gi.
-  - apply HC. destruct (G1 eq_refl) as [_ Hpos]. cbn [s_pos mk_fstream] in Hpos. cbn [s_size mk_fstream] in Z1. rewrite Z1.
-    pose proof (zlen_nonneg bytes) as Hzb.
-    assert (Z.max 0 (zlen bytes - s_pos i1) / 16 <= zlen bytes / 16) by (apply Z.div_le_mono; lia).
-    assert (0 <= Z.max 0 (zlen bytes - s_pos i1) / 16) by (apply Z.div_pos; lia).
-    assert (zlen bytes / 16 = Z.of_nat (length bytes / 16)) by (unfold zlen; rewrite Nat2Z.inj_div; reflexivity).
+  - apply HC. destruct (G1 eq_refl) as [_ Hpos]. rewrite Hp0 in Hpos. rewrite Z1, Hsz.
+    assert (Z.max 0 (Z.of_nat n - s_pos i1) / 16 <= Z.of_nat n / 16) by (apply Z.div_le_mono; lia).
+    assert (0 <= Z.max 0 (Z.of_nat n - s_pos i1) / 16) by (apply Z.div_pos; lia).
+    assert (Z.of_nat n / 16 = Z.of_nat (n / 16)) by (rewrite Nat2Z.inj_div; reflexivity).
     lia.
   - apply HB. reflexivity.
+Qed.
+
+Theorem read_session_terminates : forall (inflate : list Z -> Z -> option (list Z)) cap (bytes : list Z),
+  r_cend (f_read_session inflate cap bytes) <> EndFuel /\ r_oend (f_read_session inflate cap bytes) <> EndFuel.
+Proof.
+  intros inflate cap bytes. unfold f_read_session, read_session.
+  apply read_session_on_terminates; [apply sstream_mk|reflexivity|reflexivity].
+Qed.
+
+(* C06: ... and wherever File::close() closes the compressed file under the inflating worker's feet *)
+Theorem read_session_closing_terminates : forall (inflate : list Z -> Z -> option (list Z)) cap (bytes : list Z) (k : nat),
+  r_cend (f_read_session_closing inflate cap bytes k) <> EndFuel /\ r_oend (f_read_session_closing inflate cap bytes k) <> EndFuel.
+Proof.
+  intros inflate cap bytes k. unfold f_read_session_closing, read_session_closing.
+  apply read_session_on_terminates; [apply sstream_mk_closing|reflexivity|reflexivity].
 Qed.
